@@ -230,7 +230,7 @@ func (cs *consScen) runReader(consumer sarama.Consumer, rd *reader) {
 	poll := time.NewTicker(50 * time.Millisecond)
 	defer poll.Stop()
 	reachedEnd := func() bool {
-		if k.nowUs() < cs.lastAppendUs {
+		if k.nowUs() <= cs.lastAppendUs {
 			return false
 		}
 		return rd.delivered >= len(cs.visible(rd.mp, rd.start))
